@@ -14,6 +14,7 @@ bytes (invalid framing / stop signature / undefined descriptor reached); flukes 
 message are counted, not judged.
 """
 import itertools
+import json
 import os
 import shutil
 import subprocess
@@ -355,11 +356,18 @@ def run(ctx):
         # reported like anywhere else) and one with replications around the substituted positions
         B33, D33 = cases.tables(33)
         special = [[1001, 221002, 12001, 1002, 2001], [1001, 221003, 20011, 12001, 5001, 1002],
-                   [102002, 1001, 12001, 101000, 31001, 2001], [1001, 103000, 31001, 12001, 221001, 12004, 1002]]
-        for si in (ctx.shard % len(special), (ctx.shard + 1) % len(special)):
+                   [102002, 1001, 12001, 101000, 31001, 2001], [1001, 103000, 31001, 12001, 221001, 12004, 1002],
+                   # marker operators over a bitmap (their compiled statements carry recorded operator state)
+                   [5001, 12001, 224000, 236000, 101002, 31031, 1031, 8023, 224255, 224255],
+                   [207001, 10004, 12001, 207000, 223000, 101002, 31031, 1031, 223255, 223255, 235000]]
+        for si in (ctx.shard % len(special), (ctx.shard + 1) % len(special), 4 + ctx.shard % 2):
             try:
                 k += 1
-                sm = R.build_message(special[si], B33, D33, R.Policy(rng), rng.choice([1, 2]), bool(si % 2), rng.choice([3, 4]),
+                pol = R.Policy(rng)
+                if si >= 4:
+                    from mon.checks.c08 import AssignPolicy
+                    pol = AssignPolicy(rng, [2], [0], phase=k % 6)     # two bitmap bits, both zero: one value per marker
+                sm = R.build_message(special[si], B33, D33, pol, rng.choice([1, 2]), bool(si % 2), rng.choice([3, 4]),
                                      dict(master_table_version=33, update_sequence_number=k % 256, data_category=si))
                 dec.process(sm.bytes)
                 pool.append(sm)
@@ -393,6 +401,22 @@ def run(ctx):
         # a second long-lived decoder with template compilation on, which has already decoded every intact pool message
         # (a damaged copy must not be served from what an intact message left in its caches)
         decc = Decoder(compiled_template_cache_max=max(4, len(pool)))
+        try:
+            # ... and whose user has saved each compiled template (to_dict / JSON, what `pybufrkit compile` prints) on the way
+            from pybufrkit.templatecompiler import CompiledTemplateManager
+
+            class SavingManager(CompiledTemplateManager):
+                def get_or_compile(self, template, table_group):
+                    ct = CompiledTemplateManager.get_or_compile(self, template, table_group)
+                    seen = self.__dict__.setdefault('_verif_seen', set())
+                    if id(ct) in seen:          # saved once it has been used (the warming decode), then used again
+                        json.dumps(ct.to_dict())
+                    seen.add(id(ct))
+                    return ct
+            decc.compiled_template_manager = SavingManager(max(4, len(pool)))
+            ctx.count('compiling_decoder_saves_templates')
+        except Exception as e:
+            ctx.notes.append('saving manager unavailable: %r' % (e,))
         from mon.gen.templates import scoped
         okc = set()
         for m in pool:
